@@ -4,31 +4,41 @@
 (* rejected with the parsing exception and then leaves nothing behind; a build   *)
 (* succeeds or fails with the parsing exception or a metamodel exception.  Which *)
 (* texts are accepted is deliberately left open (the property does not say).     *)
+(* The accumulated content is a sequence of statements; a statement is whatever   *)
+(* the loader holds of it, written out in full (kind, names, value lists, ...):   *)
+(* accepting a text appends its statements, nothing else ever changes a statement *)
+(* that is already there.                                                         *)
 EXTENDS Naturals, Sequences, TLC
 
 CONSTANT MaxStmts          \* bound for model checking only
 
 VARIABLES n,               \* number of accumulated statements
+          content,         \* the accumulated statements
           res              \* outcome of the last call
 
-vars == <<n, res>>
+vars == <<n, content, res>>
 
-Init == n = 0 /\ res = "none"
+Init == n = 0 /\ content = <<>> /\ res = "none"
 
-Accept(k) == n' = n + k /\ res' = "accepted"
-RejectInput == n' = n /\ res' = "ParsingException"
+Accept(new) == content' = content \o new /\ n' = n + Len(new) /\ res' = "accepted"
+RejectInput == UNCHANGED <<n, content>> /\ res' = "ParsingException"
 BuildOutcomes == {"built", "ParsingException", "MetaException"}
-Build(out) == out \in BuildOutcomes /\ n' = n /\ res' = out
+Build(out) == out \in BuildOutcomes /\ UNCHANGED <<n, content>> /\ res' = out
 
-MCAccept(k) == n + k <= MaxStmts /\ Accept(k)
-Next == \/ \E k \in 0..MaxStmts : MCAccept(k)
+Stmts == {"s", "t"}
+MCAccept(new) == n + Len(new) <= MaxStmts /\ Accept(new)
+Next == \/ \E k \in 0..2 : \E new \in [1..k -> Stmts] : MCAccept(new)
         \/ RejectInput
         \/ \E out \in BuildOutcomes : Build(out)
 
 Spec == Init /\ [][Next]_vars
 
+IsPrefixOf(p, q) == Len(p) <= Len(q) /\ \A i \in 1..Len(p) : p[i] = q[i]
+CountOK == n = Len(content)
 \* a rejected text leaves the accumulated content as it was
-RejectedInputIsStutter == [][res' = "ParsingException" => n' = n]_vars
+RejectedInputIsStutter == [][res' = "ParsingException" => content' = content]_vars
 \* builds never change the accumulated content
-BuildIsPure == [][res' \in {"built", "MetaException"} => n' = n]_vars
+BuildIsPure == [][res' \in {"built", "MetaException"} => content' = content]_vars
+\* what was accepted stays as it was accepted
+AppendOnly == [][IsPrefixOf(content, content')]_vars
 =============================================================================
